@@ -20,6 +20,11 @@
 # define VERIF_OBJ_WHOLE(p)		__CPROVER_object_whole(p)
 /* days from 1970-01-01 to the first day of year y (proleptic Gregorian calendar), for the time-conversion loop invariants */
 # define VERIF_DAYS_BEFORE_YEAR(y)	((int64_t)365 * ((y) - 1970) + (((((y) - 1) / 4) - (((y) - 1) / 100) + (((y) - 1) / 400)) - 477))
+/* the first n (<= 14) characters of s are decimal digits */
+# define VERIF_DG_(s, n, k)	((n) <= (k) || ((s)[k] >= '0' && (s)[k] <= '9'))
+# define VERIF_DIGITS_BEFORE(s, n)	(VERIF_DG_(s, n, 0) && VERIF_DG_(s, n, 1) && VERIF_DG_(s, n, 2) && VERIF_DG_(s, n, 3) && VERIF_DG_(s, n, 4) \
+	&& VERIF_DG_(s, n, 5) && VERIF_DG_(s, n, 6) && VERIF_DG_(s, n, 7) && VERIF_DG_(s, n, 8) && VERIF_DG_(s, n, 9) && VERIF_DG_(s, n, 10) \
+	&& VERIF_DG_(s, n, 11) && VERIF_DG_(s, n, 12) && VERIF_DG_(s, n, 13))
 /* days of year y before the first day of month m (1..13), lp = 1 in a leap year */
 # define VERIF_DAYS_BEFORE_MONTH(m, lp)	((m) <= 1 ? 0 : (m) == 2 ? 31 : (59 + (lp)) + ((m) == 3 ? 0 : (m) == 4 ? 31 : (m) == 5 ? 61 : (m) == 6 ? 92 : \
 	(m) == 7 ? 122 : (m) == 8 ? 153 : (m) == 9 ? 184 : (m) == 10 ? 214 : (m) == 11 ? 245 : (m) == 12 ? 275 : 306))
